@@ -2,7 +2,7 @@
 import ast
 
 from sa.program import src, own_nodes, call_name, parent, kwarg, AnchorMissing
-from sa import guards
+from sa import guards, resolve
 
 EXPLANATION = (
     "Static rules over pyiga/approx.py, bspline.py and assemble.py: (R17.1) error discipline: the convergence status returned by "
@@ -274,7 +274,67 @@ def r17_5(ctx):
     ctx.decide('R17.5', bi.qual, 'default nodes = kv.greville()', bool(d), bi.node)
 
 
+def _polarity(facts, names):
+    """+1 / -1 if the path conditions contain the literal `name` (or `name is True/== True`) positively / negatively, for one
+    of the names; 0 if they say nothing about it"""
+    for (t, pol, _n) in facts:
+        tt = t.replace(' ', '')
+        for nm in names:
+            if tt in (nm, nm + '==True', nm + 'isTrue'):
+                return 1 if pol else -1
+            if tt in ('not' + nm, nm + '==False', nm + 'isFalse'):
+                return -1 if pol else 1
+    return 0
+
+
+def r17_8(ctx):
+    """The flag f_physical -- not the presence of a geometry -- decides whether the data function is evaluated at the mapped
+    points: every function with an `f_physical` parameter calls grid_eval_transformed(f, ..) only where f_physical holds and
+    grid_eval(f, ..) only where it does not; and project_L2 takes the exact Kronecker shortcut only without geometry."""
+    n = 0
+    for unit in ctx.prog.units.values():
+        if not unit.modname.startswith('pyiga') or unit.lang != 'py':
+            continue
+        for fi in ctx.prog.funcs_in(unit.modname, include_nested=False):
+            params = [a.arg for a in fi.node.args.args]
+            if 'f_physical' not in params or 'f' not in params:
+                continue
+            for c in ast.walk(fi.node):
+                if not (isinstance(c, ast.Call) and (call_name(c) or '').split('.')[-1] in ('grid_eval_transformed', 'grid_eval')
+                        and (call_name(c) or '').split('.')[0] in ('utils', 'grid_eval', 'grid_eval_transformed')
+                        and c.args and isinstance(c.args[0], ast.Name) and c.args[0].id == 'f'):
+                    continue
+                n += 1
+                transformed = (call_name(c) or '').endswith('grid_eval_transformed')
+                pol = _polarity(guards.dominating_facts(c), ('f_physical',))
+                want = 1 if transformed else -1
+                if pol == want:
+                    ctx.met('R17.8', fi.qual, src(c), c, 'selected by f_physical' if transformed else 'selected by not f_physical')
+                elif pol == -want:
+                    ctx.violated('R17.8', fi.qual, src(c), c, 'evaluation mode contradicts the f_physical flag on this path')
+                else:
+                    facts = [('' if p else 'not ') + t for (t, p, _n) in guards.dominating_facts(c)]
+                    ctx.violated('R17.8', fi.qual, src(c) + ' under ' + (' and '.join(facts)[:80] or 'no condition'), c,
+                                 'whether f is evaluated at the mapped points G(xi) or at the parameter points xi is not decided by f_physical here: '
+                                 'a function given in parameter coordinates together with a geometry (f_physical=False, geo given) is evaluated '
+                                 'at the wrong points' if transformed else
+                                 'the untransformed evaluation is not restricted to f_physical=False')
+    ctx.floor('R17.8', 'evaluations of the data function in functions with an f_physical flag', n, 4)
+    # project_L2: M^{-1} = kron of the 1D inverses only without geometry
+    pl = ctx.prog.func(AP + '.project_L2')
+    rets = [r for r in guards.returns_of(pl.node) if any(isinstance(c, ast.Call) and (call_name(c) or '').endswith('apply_tprod')
+                                                         for c in ast.walk(resolve.expand(r.value, r)))]
+    for r in rets:
+        facts = guards.dominating_facts(r)
+        none_pos = any((t.replace(' ', '') == 'geoisNone' and p) or (t.replace(' ', '') in ('geoisnotNone', 'geo') and not p) for (t, p, _n) in facts)
+        ctx.decide('R17.8', pl.qual, src(r)[:80] + ' under ' + ' and '.join(('' if p else 'not ') + t for (t, p, _n) in facts)[:70], none_pos, r,
+                   'the Kronecker product of the 1D mass inverses is the inverse of the mass matrix only without a geometry' if none_pos else
+                   'the Kronecker shortcut is taken on a path where a geometry may be present: the right-hand side is weighted with |det J| '
+                   'but solved with the unweighted mass inverse, which is not a projection', definite=True)
+
+
 def run(ctx):
+    r17_8(ctx)
     r17_1(ctx)
     r17_2(ctx)
     r17_3(ctx)
